@@ -79,7 +79,9 @@ Section RunId.
   Inductive iop :=
   | IBase (o : @op N)
   | IShare (i : nat) (p1 p2 : list nat)    (* install the object at p1 also at p2 *)
-  | IGraft (i : nat) (p : list nat).       (* a new Branch(pool i, the object at p inside pool i) *)
+  | IGraft (i : nat) (p : list nat) (mode : nat).
+    (* a new collection over existing objects: mode 0 = Branch(pool i, the object at p inside pool i),
+       mode 1 = Label.ed(0, a=x, b=x), mode 2 = Index.ed(0, x, x) with x the object at p *)
 
   Definition push (w : world) (a : agg) : world * itree :=
     let '(t, n') := fresh_like a (nxt w) in
@@ -99,13 +101,20 @@ Section RunId.
             (w', obs 0 a' w')
         | _, _ => (w, [9])
         end
-    | IGraft i p =>
+    | IGraft i p mode =>
         (* the constructor keeps the objects it is given: the new root aliases pool entry i *)
         let '(a, t) := geti w i in
         match sub_agg a p, sub_it t p with
         | Some xa, Some xt =>
-            let root := Node KBranch no_quantity nzero [a; xa] [] None "" in
-            let rt := IT (nxt w) (Pos.succ (nxt w)) [t; xt] [] None in
+            let root := match mode with
+                        | O => Node KBranch no_quantity nzero [a; xa] [] None ""
+                        | S O => Node (KLabel ["a"; "b"]%string) no_quantity nzero [xa; xa] [] None ""
+                        | _ => Node KIndex no_quantity nzero [xa; xa] [] None ""
+                        end in
+            let rt := match mode with
+                      | O => IT (nxt w) (Pos.succ (nxt w)) [t; xt] [] None
+                      | _ => IT (nxt w) (Pos.succ (nxt w)) [xt; xt] [] None
+                      end in
             let w' := {| nxt := Pos.succ (Pos.succ (nxt w)); pl := pl w ++ [(root, rt)] |} in
             (w', obs 0 root w')
         | _, _ => (w, [9])
